@@ -1,8 +1,275 @@
-/- driver component stub: replaced by the real component when its model exists -/
+/-
+  driver component `selfplay` (property C11)
+
+  ops (tokens separated by blanks; rationals `n` or `n/d`; positions/moves as in Ser.lean):
+
+    ok <cfg> <result> P <n> <pos7>*n  M <n> (<k> <move4>*k)*n  Q <n> (<k> <rat>*k)*n
+       V <n> <rat>*n  Z <n> <rat>*n  C <n> <nat>*n  L <n> <rat>*n
+         cfg    = <size> <threshold> <plyLimit> <eps>
+         result = W | B | N (None) | X (anything that is neither None nor a colour)
+         P/M/Q/V = Transcript.positions / moves / probs / values     (as observed)
+         Z/C     = observer's trace: v_zero and sampled index per recorded position
+         L       = Transcript.results
+      → `ok`   when `TranscriptOK cfg eps outcome t trace labels` (decided by `decide`)
+      → `fail:<clause>:<index>:<ending>` otherwise (first failing clause; how the observed
+         game ended: resignation | plylimit | decided-W | decided-B | decided-N | unfinished)
+
+    play <cfg> <n> (<k> (<move4> <pos7>)*k  <j> <rat>*j  <value> <sims> <v0> <chosen>)*n
+      → `short` when the model asked for more than the `n` scripted answers, else
+        `<stop> <answers-ok | answers-bad:i> <result> P … M … Q … V … L …`  (the model's run)
+
+    outcome <pos7>  → none | draw | W | B      (the adjudication used by the two ops above)
+
+  The adjudication is a LOCAL faithful copy of `Position.winner()` (`_walk` flood fill,
+  `has_road`, `flat_counts`, `flats_winner`), because Model/Winner.lean (property C02) was
+  not in the tree when this component was written; it is tied to the implementation by the
+  `outcome` op.  Replace `Local.outcome` by `Impl.winner` once that module has landed.
+-/
 import TakVerif.Driver.Ser
+import TakVerif.Model.SelfPlay
+import TakVerif.Spec.TranscriptOK
 
 namespace Tak.Driver.SelfPlay
+open Tak.Ser Tak.SelfPlay
 
-def handle : List String → Option String := fun _ => none
+/-! ### local copy of the adjudication -/
+namespace Local
+
+def isRoad (p : Pos) (x y : Int) : Bool :=
+  match p.atI x y with
+  | [] => false
+  | pc :: _ => pc.kind.isRoad
+
+def topColorNe (p : Pos) (x y : Int) (color : Color) : Bool :=
+  match p.atI x y with
+  | [] => true
+  | pc :: _ => pc.color != color
+
+/-- `_walk`: explicit stack (head = last element of the Python list), `seen` as a list -/
+def walk (p : Pos) (color : Color) (horiz : Bool) : Nat → List (Int × Int) → List (Int × Int) → Bool
+  | 0, _, _ => false
+  | _ + 1, _, [] => false
+  | fuel + 1, seen, j :: q =>
+    if j ∈ seen then walk p color horiz fuel seen q
+    else
+      let seen' := j :: seen
+      let x := j.1
+      let y := j.2
+      if !p.inBounds x y then walk p color horiz fuel seen' q
+      else if !isRoad p x y || topColorNe p x y color then walk p color horiz fuel seen' q
+      else if horiz && x == (p.size : Int) - 1 then true
+      else if !horiz && y == (p.size : Int) - 1 then true
+      else walk p color horiz fuel seen' ((x, y - 1) :: (x, y + 1) :: (x - 1, y) :: (x + 1, y) :: q)
+
+def walkFrom (p : Pos) (seeds : List (Int × Int)) (color : Color) (horiz : Bool) : Bool :=
+  walk p color horiz (seeds.length + 4 * ((p.size + 2) * (p.size + 2))) [] seeds.reverse
+
+def hasRoad (p : Pos) : Option Color :=
+  let left := (List.range p.size).map fun (i : Nat) => ((0 : Int), (i : Int))
+  let top := (List.range p.size).map fun (i : Nat) => ((i : Int), (0 : Int))
+  let w := walkFrom p left .white true || walkFrom p top .white false
+  let b := walkFrom p left .black true || walkFrom p top .black false
+  if w && b then some p.toMove.flip
+  else if w then some .white
+  else if b then some .black
+  else none
+
+def flatCounts (p : Pos) : Nat × Nat :=
+  p.board.foldl (fun acc sq =>
+    match sq with
+    | [] => acc
+    | pc :: _ =>
+      if pc.kind != .flat then acc
+      else if pc.color == .white then (acc.1 + 1, acc.2) else (acc.1, acc.2 + 1)) (0, 0)
+
+def flatsWinner (p : Pos) : Option Color :=
+  let (w, b) := flatCounts p
+  if w > b then some .white else if w < b then some .black else none
+
+/-- `Position.winner()` as none (not over) / some none (draw) / some (some c) -/
+def outcome (p : Pos) : Option (Option Color) :=
+  match hasRoad p with
+  | some c => some (some c)
+  | none =>
+    if (p.board.all fun sq => !sq.isEmpty) || p.wStones + p.wCaps == 0 || p.bStones + p.bCaps == 0 then
+      some (flatsWinner p)
+    else none
+
+end Local
+
+/-! ### token parser -/
+
+abbrev P := StateT (List String) Option
+
+def tok : P String := fun
+  | [] => none
+  | t :: ts => some (t, ts)
+
+def expect (s : String) : P Unit := do
+  let t ← tok
+  if t = s then pure () else failure
+
+def nat : P Nat := do
+  let t ← tok
+  match t.toNat? with
+  | some n => pure n
+  | none => failure
+
+def int : P Int := do
+  let t ← tok
+  match t.toInt? with
+  | some n => pure n
+  | none => failure
+
+def parseRat (s : String) : Option Rat :=
+  match s.splitOn "/" with
+  | [n] => n.toInt?.map fun (i : Int) => (i : Rat)
+  | [n, d] => do
+    let n ← n.toInt?
+    let d ← d.toNat?
+    if d = 0 then none else pure ((n : Rat) / (d : Rat))
+  | _ => none
+
+def rat : P Rat := do
+  let t ← tok
+  match parseRat t with
+  | some q => pure q
+  | none => failure
+
+def takeN (n : Nat) : P (List String) := fun ts =>
+  if ts.length < n then none else some (ts.take n, ts.drop n)
+
+def pos : P Pos := do
+  let ts ← takeN 7
+  match parsePos ts with
+  | some p => pure p
+  | none => failure
+
+def move : P Move := do
+  let ts ← takeN 4
+  match parseMove ts with
+  | some m => pure m
+  | none => failure
+
+def many {α : Type} (n : Nat) (p : P α) : P (List α) :=
+  (List.range n).mapM fun _ => p
+
+def counted {α : Type} (p : P α) : P (List α) := do
+  let n ← nat
+  many n p
+
+def section_ {α : Type} (tag : String) (p : P α) : P (List α) := do
+  expect tag
+  counted p
+
+def cfgP : P (SelfPlayConfig × Rat) := do
+  let size ← nat
+  let thr ← rat
+  let lim ← int
+  let eps ← rat
+  pure (⟨size, thr, lim⟩, eps)
+
+/-- `none` = the observed result is neither None nor a colour -/
+def resultP : P (Option (Option Color)) := do
+  let t ← tok
+  match t with
+  | "W" => pure (some (some .white))
+  | "B" => pure (some (some .black))
+  | "N" => pure (some none)
+  | "X" => pure none
+  | _ => failure
+
+def showRat (q : Rat) : String :=
+  if q.den = 1 then toString q.num else s!"{q.num}/{q.den}"
+
+def showEnd : EndKind → String
+  | .resignation => "resignation"
+  | .plyLimit => "plylimit"
+  | .decided (some .white) => "decided-W"
+  | .decided (some .black) => "decided-B"
+  | .decided none => "decided-N"
+  | .unfinished => "unfinished"
+
+def showList {α : Type} (tag : String) (f : α → String) (xs : List α) : String :=
+  " ".intercalate ([tag, toString xs.length] ++ xs.map f)
+
+def showTranscript (t : Transcript) : String :=
+  " ".intercalate
+    [showOptColor t.result,
+     showList "P" showPos t.positions,
+     showList "M" (fun ms => " ".intercalate (toString ms.length :: ms.map showMove)) t.moves,
+     showList "Q" (fun ps => " ".intercalate (toString ps.length :: ps.map showRat)) t.probs,
+     showList "V" showRat t.values]
+
+def showStop : Stop → String
+  | .cutoff => "cutoff"
+  | .decided => "decided"
+  | .resigned => "resigned"
+  | .crashed => "crashed"
+  | .outOfFuel => "out-of-fuel"
+
+/-! ### ops -/
+
+def okOp : P String := do
+  let (cfg, eps) ← cfgP
+  let res ← resultP
+  let positions ← section_ "P" pos
+  let moves ← section_ "M" (counted move)
+  let probs ← section_ "Q" (counted rat)
+  let values ← section_ "V" rat
+  let v0s ← section_ "Z" rat
+  let chosen ← section_ "C" nat
+  let labels ← section_ "L" rat
+  let rest ← get
+  if !rest.isEmpty then failure
+  let tr : Trace := ⟨v0s, chosen⟩
+  let init := initialPos cfg.size
+  match res with
+  | none =>
+    let t : Transcript := ⟨positions, moves, probs, values, none⟩
+    pure s!"fail:result-type:{t.len}:{showEnd (endKind init cfg Local.outcome t tr)}"
+  | some r =>
+    let t : Transcript := ⟨positions, moves, probs, values, r⟩
+    if decide (TranscriptOK cfg eps Local.outcome t tr labels) then pure "ok"
+    else
+      let e := showEnd (endKind init cfg Local.outcome t tr)
+      match firstFailure init cfg eps Local.outcome t tr labels with
+      | some (c, i) => pure s!"fail:{c}:{i}:{e}"
+      | none => pure s!"fail:unknown:0:{e}"
+
+def answerP : P Answer := do
+  let children ← counted (do let m ← move; let p ← pos; pure (m, p))
+  let probs ← counted rat
+  let value ← rat
+  let sims ← nat
+  let v0 ← rat
+  let chosen ← nat
+  pure ⟨children, probs, value, sims, v0, chosen⟩
+
+def playOp : P String := do
+  let (cfg, eps) ← cfgP
+  let script ← counted answerP
+  let rest ← get
+  if !rest.isEmpty then failure
+  let oracle : Nat → Answer := fun i => script.getD i default
+  let run := playRun cfg Local.outcome oracle
+  if run.log.len > script.length then pure "short"
+  else
+    let bad := firstBad run.log.len fun i => AnswerOK eps (run.log.pos i) (oracle i)
+    let a := match bad with
+      | none => "answers-ok"
+      | some i => s!"answers-bad:{i}"
+    pure s!"{showStop run.stop} {a} {showTranscript run.log} {showList "L" showRat run.log.results}"
+
+def handle : List String → Option String
+  | "ok" :: rest => (okOp.run rest).map (·.1)
+  | "play" :: rest => (playOp.run rest).map (·.1)
+  | "outcome" :: rest => do
+    let p ← parsePos rest
+    pure (match Local.outcome p with
+      | none => "none"
+      | some none => "draw"
+      | some (some c) => showColor c)
+  | _ => none
 
 end Tak.Driver.SelfPlay
